@@ -916,6 +916,53 @@ fn gen_fresh(rng: &mut Rng, out: &mut Vec<Case>) {
     out.push(finish(format!("hist {} | {}", setup, ops), Family::Clean, &[]));
 }
 
+/// an older transaction stays open (with uncommitted writes) while younger ones begin, write and commit; then a third
+/// one begins and reads: the uncommitted work of the old one, whose id is below the last committed id, must stay
+/// invisible (this is what the snapshot's active set is for), also after it commits or rolls back
+fn gen_old_active(rng: &mut Rng, out: &mut Vec<Case>) {
+    let n_init = rng.range(2, 3);
+    let setup = setup_line("t", n_init, false);
+    let k_old = rng.range(1, n_init);
+    let old_write = match rng.below(3) {
+        0 => format!("s1 del t where k eq {}", k_old),
+        1 => "s1 ins t 11 110".to_string(),
+        _ => format!("s1 ins t 11 110 ; s1 del t where k eq {}", k_old),
+    };
+    let young = match rng.below(3) {
+        0 => "s2 begin ; s2 ins t 21 210 ; s2 commit".to_string(),
+        1 => "db ins t 21 210".to_string(),
+        _ => "s2 begin ; s2 ins t 21 210 ; s2 commit ; db ins t 22 220".to_string(),
+    };
+    let end_old = gen_end(rng);
+    let ops = format!(
+        "s1 begin ; {} ; {} ; s3 begin ; s3 sel t ; s1 sel t ; s1 {} ; s3 sel t ; s4 begin ; s4 sel t ; s4 commit ; s3 commit",
+        old_write, young, end_old
+    );
+    out.push(finish(format!("hist {} | {}", setup, ops), Family::Clean, &["old_active_young_committed"]));
+}
+
+/// two open transactions delete (or update) the same row; every combination of outcomes
+fn gen_concurrent_same_row(rng: &mut Rng, out: &mut Vec<Case>) {
+    let setup = setup_line("t", 2, false);
+    let w = |rng: &mut Rng, s: &str| -> String {
+        if rng.chance(2, 3) {
+            format!("{} del t where k eq 1", s)
+        } else {
+            format!("{} upd t v set {} where k eq 1", s, rng.range(50, 59))
+        }
+    };
+    let w1 = w(rng, "s1");
+    let w2 = w(rng, "s2");
+    let e1 = gen_end(rng);
+    let e2 = gen_end(rng);
+    let ops = if rng.chance(1, 2) {
+        format!("s1 begin ; s2 begin ; {} ; {} ; s1 {} ; s2 sel t ; s2 {} ; db sel t", w1, w2, e1, e2)
+    } else {
+        format!("s1 begin ; s2 begin ; {} ; {} ; s2 {} ; s1 sel t ; s1 {} ; db sel t", w1, w2, e2, e1)
+    };
+    out.push(finish(format!("hist {} | {}", setup, ops), Family::ConcurrentWrite, &[]));
+}
+
 /// C03 family: rollbacks, drops, failing statements at every position, failing batches, observed by later transactions
 fn gen_c03(rng: &mut Rng, out: &mut Vec<Case>) {
     let n_init = rng.range(1, 3);
@@ -1083,6 +1130,13 @@ impl Engine for HistEngine {
             let nsess = rng.range(3, 4) as usize;
             gen_interleaved(rng, nsess, 0, Some(1), &mut out);
         }
+        // (3b) old open transaction below the last committed id; concurrent writers of one row
+        for _ in 0..(if quick { 120 } else { 1200 }) {
+            gen_old_active(rng, &mut out);
+        }
+        for _ in 0..(if quick { 40 } else { 400 }) {
+            gen_concurrent_same_row(rng, &mut out);
+        }
         // (4) database birth
         for _ in 0..(if quick { 12 } else { 60 }) {
             gen_fresh(rng, &mut out);
@@ -1095,6 +1149,11 @@ impl Engine for HistEngine {
     }
     fn exec(&mut self, line: &str) -> String {
         run_case(line)
+    }
+    /// one case creates a database (O_DIRECT files, fsync): generous time-out so that an I/O stall of the machine
+    /// (seen once: all 8 workers stalled > 20 s at the same moment while other builds were running) is not taken for a hang
+    fn timeout_ms(&self) -> u64 {
+        120_000
     }
 }
 
